@@ -26,20 +26,12 @@ NS_POOL = ['Foo', 'Bar', 'Baz', 'Qux', 'FooBar', 'Gtk', 'Gdk', 'GLib', 'Gio', 'A
 LIBDIR_ENTRY = '/nonexistent/lib/girepository-1.0'
 BUILTIN = '<builtin>'
 ERR_NAMES = {0: 'NotFound', 1: 'Mismatch', 2: 'VersionConflict'}
-EAGER_OVER_LAZY = 'C17:eager-load-ignores-lazy-entry'
 
-# Genuine defects of the unchanged code (reported to the integrator; see the final report of the
-# C17 work package).  key -> KNOWN-FINDING text.  A history whose first deviation from the
-# statement falls into one of these classes is reported under the class key; anything else is
-# a new violation.
-PENDING_FINDINGS = {
-    'C17:eager-load-ignores-lazy-entry':
-        "an eager g_irepository_require / load_typelib of a LAZILY loaded namespace does not look at the lazy entry "
-        "(get_registered_status returns NULL without a version check when the LAZY flag is absent): the typelib is "
-        "searched again, so requiring another version is no NAMESPACE_VERSION_CONFLICT (Bar 1.0 lazily loaded, require "
-        "Bar 2.0: version 2.0 is then reported with the path of Bar-1.0.typelib, register_internal re-using the old "
-        "key), and requiring the loaded version fails with TYPELIB_NOT_FOUND when the file is not on the path searched now",
-}
+# Genuine defects of the unchanged code that are not repaired yet: key -> KNOWN-FINDING text.  Empty:
+# the four classes found by this check (use-after-free of the lazy key c8cdbdb, misversioned elected
+# file 89f491f, load_typelib conflict 1c07e29, eager load over a lazy entry cf7a1a1) are repaired and
+# their replays are regressions in corpus/C17/edge_cases.json.
+PENDING_FINDINGS = {}
 
 
 def report(ctx, key, what, replay):
@@ -468,19 +460,12 @@ class Spec(object):
             raise Outside('dependency cycle')
         if ns in self.loaded:
             e = self.loaded[ns]
-            transition = e['lazy'] and not lazy
             if ver is not None and ver != e['ver']:
-                if transition:
-                    self.set_taint(EAGER_OVER_LAZY)     # the library searches again instead
                 return ('err', 'VersionConflict')
-            if transition:
+            if e['lazy'] and not lazy:
                 # "requiring an already loaded namespace returns it"; being loaded eagerly now, its
                 # recorded dependencies have to be loaded too (the caller runs `promote`)
-                if not self.search_finds_same(ns, ver, search, e):
-                    self.set_taint(EAGER_OVER_LAZY)
-                    self.events.append('lazy->eager:search-finds-other-contents')
-                else:
-                    self.events.append('lazy->eager:clean')
+                self.events.append('lazy->eager:require')
                 return ('promote', e['tid'])
             return ('same', e['tid'])
         chosen = self.elect(ns, ver, search)
@@ -519,15 +504,6 @@ class Spec(object):
         first = min(c[0] for c in top)
         return [(c[1], c[2], c[3]) for c in top if c[0] == first]
 
-    def search_finds_same(self, ns, ver, search, e):
-        """would a fresh search (which the statement does not ask for: the namespace is loaded)
-        come back with the contents that are loaded?  Only used to recognise the situation of
-        the pending finding EAGER_OVER_LAZY."""
-        chosen = self.elect(ns, ver, search)
-        if chosen is None:
-            return False
-        return all(self.dirs[c[0]][c[1]] == e['hdr'] for c in chosen)
-
     def promote(self, ns, depth):
         """a lazily loaded namespace becomes eagerly loaded: its recorded dependencies are loaded
         at the recorded versions; -> None or the error of a dependency"""
@@ -535,8 +511,6 @@ class Spec(object):
         err = self.load_deps(e['hdr'], depth)
         if err is None:
             e['lazy'] = False
-            e['tid'] = self.ntid        # the GITypelib object may be another one from now on
-            self.ntid += 1
         return err
 
     def file_kind(self, ns, c):
@@ -649,10 +623,8 @@ def judge_history(tree, ops, real, done, rc):
                             % (i, o, e['ver'], e['path'], r), sp, judged
                 elif want[0] == 'promote':
                     # lazily loaded, now required eagerly at an agreeing version: the namespace is
-                    # returned (version and path of the file that IS loaded) and its dependencies
-                    # get loaded.  The statement does not say that the GITypelib object stays the
-                    # same across this transition (the library maps the file again): a new identity
-                    # is accepted, the identity of ANOTHER namespace's typelib is not.
+                    # returned — the same typelib, version and path of the file that IS loaded —
+                    # and its dependencies get loaded
                     e = sp.loaded[o['ns']]
                     err = sp.promote(o['ns'], 0)
                     if err is not None:
@@ -660,13 +632,13 @@ def judge_history(tree, ops, real, done, rc):
                             return 'fails', 'call %d %r: a dependency cannot be loaded (%s) but the call returned %r' \
                                 % (i, o, err[1], r), sp, judged
                     else:
-                        if 'ok' not in r or r['ok'][1] != o['ns'] or r['ok'][2] != e['ver'] or r['ok'][3] != e['path']:
-                            return 'fails', 'call %d %r: lazily loaded (version %s, %s) and now required eagerly: it must be ' \
-                                'returned with that version and path, got %r' % (i, o, e['ver'], e['path'], r), sp, judged
                         live = set(x['tid'] for x in sp.loaded.values())
-                        if r['ok'][0] in [v for t, v in tids.items() if t in live]:
-                            return 'fails', 'call %d %r: the typelib returned is the one of another namespace' % (i, o), sp, judged
-                        tids[e['tid']] = r['ok'][0]
+                        if 'ok' in r and want[1] not in tids and r['ok'][0] not in [v for t, v in tids.items() if t in live]:
+                            tids[want[1]] = r['ok'][0]     # lazily loaded from memory: first time it is returned
+                        if 'ok' not in r or tids.get(want[1]) != r['ok'][0] or r['ok'][1] != o['ns'] \
+                                or r['ok'][2] != e['ver'] or r['ok'][3] != e['path']:
+                            return 'fails', 'call %d %r: lazily loaded (version %s, %s) and now required eagerly: the same ' \
+                                'typelib must be returned, got %r' % (i, o, e['ver'], e['path'], r), sp, judged
                 else:
                     if r.get('err') is None or ERR_NAMES.get(r['err']) != want[1]:
                         return 'fails', 'call %d %r: the statement requires error %s, the library answered %r' % (i, o, want[1], r), sp, judged
@@ -677,17 +649,12 @@ def judge_history(tree, ops, real, done, rc):
                     raise Outside('special-cased namespace')
                 if ns in sp.loaded:
                     e = sp.loaded[ns]
-                    transition = e['lazy'] and not o['lazy']
                     if e['ver'] == hdr['ver']:
                         err = None
-                        if transition:
+                        if e['lazy'] and not o['lazy']:
                             # already (lazily) loaded at this version: it stays what it is and becomes
-                            # eagerly loaded; the library registers the in-memory typelib under the old key
-                            if hdr != e['hdr']:
-                                sp.set_taint(EAGER_OVER_LAZY)
-                                sp.events.append('lazy->eager:load-other-contents')
-                            else:
-                                sp.events.append('lazy->eager:load-clean')
+                            # eagerly loaded
+                            sp.events.append('lazy->eager:load')
                             err = sp.promote(ns, 0)
                         if err is not None:
                             if 'err' not in r:
@@ -696,8 +663,6 @@ def judge_history(tree, ops, real, done, rc):
                         elif r.get('okns') != ns:
                             return 'fails', 'call %d %r: already loaded at this version, must succeed; got %r' % (i, o, r), sp, judged
                     else:
-                        if transition:
-                            sp.set_taint(EAGER_OVER_LAZY)
                         if ERR_NAMES.get(r.get('err')) != 'VersionConflict':
                             return 'fails', 'call %d %r: %s is loaded at version %s, loading version %s must fail with a ' \
                                 'version conflict; got %r' % (i, o, ns, e['ver'], hdr['ver'], r), sp, judged
@@ -1026,8 +991,6 @@ def run(ctx):
         'matters between distinct version strings of equal value inside one directory (1.10 vs 1.010)',
         'the namespace GIRepository is special-cased by the library (only version 2.0 is ever considered): compared with '
         'the model, not judged by the oracle',
-        'across a lazy-to-eager transition the library returns a new GITypelib object for the namespace (it maps a file '
-        'again): the oracle asks for the loaded version and path, not for pointer identity, on that one call',
         'g_slist_sort is stable (the model sorts with a stable insertion sort); strtol as modelled is compared with libc',
     ])
 
